@@ -1,6 +1,7 @@
 package harness
 
 import (
+	"fmt"
 	"math/rand"
 	"strings"
 	"sync"
@@ -112,6 +113,34 @@ func GenTripW(rng *rand.Rand, thorough bool, emit func(*Sx)) {
 							L(A("command-timeout-ms"), Num(int64(tripwTimeout/time.Millisecond)))}})
 				}
 			}
+		}
+	}
+	// slow mailboxes: the per-recipient replies of an LMTP message arrive further apart than CommandTimeout
+	// (but well within SubmissionTimeout): every accepted recipient is still reported
+	for _, cb := range []bool{true, false} {
+		for _, nrcpt := range []int{2, 3} {
+			cfg := fullCfg(true)
+			cfg.LMTPSession = true
+			sc := Script{}
+			calls := []TripCall{{Kind: "mail", Arg: "slow@x"}}
+			p := DefaultPlan()
+			p.StatusDelayMs = 1300
+			for i := 0; i < nrcpt; i++ {
+				addr := fmt.Sprintf("box%d@x", i)
+				sc.Rcpt = append(sc.Rcpt, BNil)
+				e := BNil
+				if i == nrcpt-1 {
+					e = BSmtp(550, [3]int{5, 1, 1}, "mailbox gone")
+				}
+				p.Status = append(p.Status, StatusCall{Addr: addr, Err: e})
+				calls = append(calls, TripCall{Kind: "rcpt", Arg: addr})
+			}
+			sc.Data = []DataPlan{p}
+			sc.Rcpt = append(sc.Rcpt, BNil)
+			calls = append(calls, TripCall{Kind: "lmtpdata", Parts: [][]byte{[]byte("to slow mailboxes\r\n")}, Callback: cb, Closes: 1},
+				TripCall{Kind: "mail", Arg: "next@x"}, TripCall{Kind: "rcpt", Arg: "box0@x"}, TripCall{Kind: "noop"}, TripCall{Kind: "quit"})
+			cases = append(cases, TripCase{Cfg: cfg, Script: sc, LMTP: true, CmdTmo: tripwTimeout, Concur: true, Calls: calls,
+				Extra: []*Sx{L(A("focus"), A("C18")), L(A("slow-mailboxes"), Num(int64(nrcpt)))}})
 		}
 	}
 	// all at once, each with its own server, connection and backend: the wall time is that of the slowest
